@@ -17,8 +17,8 @@ EXTENDS TrackOps
 
 CONSTANTS MaxOps, Memo, OpSet
 
-VARIABLES ftype, tpb, tracks, memo, hist, nextid
-vars == <<ftype, tpb, tracks, memo, hist, nextid>>
+VARIABLES ftype, tpb, tracks, memo, hist, nextid, doubled
+vars == <<ftype, tpb, tracks, memo, hist, nextid, doubled>>
 
 Obs(trs) == Merge(trs)                 \* what iteration / length / merged_track are functions of
 
@@ -32,6 +32,7 @@ Edit(op, a, b, c, newtracks, keepmemo) ==
   /\ tracks' = newtracks
   /\ memo' = IF keepmemo THEN memo ELSE None
   /\ hist' = Append(hist, [H(op, a, b, c, <<>>) EXCEPT !.tracks = newtracks])
+  /\ doubled' = (doubled \/ op = "track_double")
   /\ UNCHANGED <<ftype, tpb>>
 
 \* every fourth new message is an end_of_track with a non-zero delta (ids: 0)
@@ -66,13 +67,13 @@ MsgDelete ==      \* del mid.tracks[t][i]
             [tracks EXCEPT ![t] = [j \in 1..(Len(@) - 1) |-> IF j < i THEN @[j] ELSE @[j + 1]]], TRUE)
   /\ UNCHANGED nextid
 MsgSetTime ==     \* mid.tracks[t][i].time = v
-  /\ "msg_time" \in OpSet
+  /\ "msg_time" \in OpSet /\ ~doubled
   /\ \E t \in DOMAIN tracks : \E i \in DOMAIN tracks[t] : \E v \in {0, 5} :
        /\ tracks[t][i].dt # v
        /\ Edit("msg_time", t, i, v, [tracks EXCEPT ![t][i].dt = v], TRUE)
   /\ UNCHANGED nextid
 MsgSetAttr ==     \* mid.tracks[t][i].note = ... / .tempo = ...  (in place, same delta)
-  /\ "msg_attr" \in OpSet
+  /\ "msg_attr" \in OpSet /\ ~doubled
   /\ \E t \in DOMAIN tracks : \E i \in DOMAIN tracks[t] :
        /\ tracks[t][i].id \notin {0, 200}
        /\ Edit("msg_attr", t, i, tracks[t][i].id + 30, [tracks EXCEPT ![t][i].id = @ + 30], TRUE)
@@ -84,11 +85,17 @@ MsgReplace ==     \* mid.tracks[t][i] = msg   (a new message with the same delta
        /\ Edit("msg_replace", t, i, tracks[t][i].id + 60, [tracks EXCEPT ![t][i].id = @ + 60], TRUE)
   /\ UNCHANGED nextid
 MsgSwapTimes ==   \* the deltas of two neighbours are exchanged (the track's total is unchanged)
-  /\ "msg_swap" \in OpSet
+  /\ "msg_swap" \in OpSet /\ ~doubled
   /\ \E t \in DOMAIN tracks : \E i \in DOMAIN tracks[t] :
        /\ i < Len(tracks[t]) /\ tracks[t][i].dt # tracks[t][i + 1].dt
        /\ Edit("msg_swap", t, i, 0, [tracks EXCEPT ![t][i].dt = tracks[t][i + 1].dt,
                                                    ![t][i + 1].dt = tracks[t][i].dt], TRUE)
+  /\ UNCHANGED nextid
+TrackDouble ==    \* mid.tracks[t] = mid.tracks[t] * 2   (the same message objects twice; further
+                  \* in-place message edits would hit both occurrences, so none are modelled after it)
+  /\ "track_double" \in OpSet /\ ~doubled
+  /\ \E t \in DOMAIN tracks : tracks[t] # <<>> /\ Len(tracks[t]) <= 2 /\
+       Edit("track_double", t, 0, 0, [tracks EXCEPT ![t] = @ \o @], TRUE)
   /\ UNCHANGED nextid
 TrackSlice ==     \* mid.tracks[t] = mid.tracks[t][1:]   (a slice of a MidiTrack is a MidiTrack)
   /\ "track_slice" \in OpSet
@@ -107,33 +114,35 @@ SetTpb ==
   /\ "set_tpb" \in OpSet
   /\ \E v \in {96, 480} : v # tpb /\ tpb' = v
        /\ hist' = Append(hist, [H("set_tpb", v, 0, 0, <<>>) EXCEPT !.tpb = v])
-  /\ UNCHANGED <<ftype, tracks, memo, nextid>>
+  /\ UNCHANGED <<ftype, tracks, memo, nextid, doubled>>
 SetType ==
   /\ "set_type" \in OpSet
   /\ \E v \in {1, 2} : v # ftype /\ ftype' = v
        /\ hist' = Append(hist, [H("set_type", v, 0, 0, <<>>) EXCEPT !.type = v])
-  /\ UNCHANGED <<tpb, tracks, memo, nextid>>
+  /\ UNCHANGED <<tpb, tracks, memo, nextid, doubled>>
 
 Observe(op) ==    \* iterate / length / merged_track all go through the merged track
   /\ op \in OpSet
   /\ hist' = Append(hist, H(op, 0, 0, 0, Seen))
   /\ memo' = IF Memo = "stale" /\ ftype # 2 THEN Seen ELSE memo
-  /\ UNCHANGED <<ftype, tpb, tracks, nextid>>
+  /\ UNCHANGED <<ftype, tpb, tracks, nextid, doubled>>
 Save ==           \* save() writes the tracks directly
   /\ "save" \in OpSet
   /\ hist' = Append(hist, H("save", 0, 0, 0, <<>>))
-  /\ UNCHANGED <<ftype, tpb, tracks, memo, nextid>>
+  /\ UNCHANGED <<ftype, tpb, tracks, memo, nextid, doubled>>
 
 Init == /\ ftype = 1 /\ tpb = 480 /\ tracks = <<>> /\ memo = None /\ hist = <<>> /\ nextid = 1
+        /\ doubled = FALSE
 Next == /\ Len(hist) < MaxOps
         /\ \/ AddTrack \/ TracksAppend \/ TracksRemove \/ MsgAppend \/ MsgInsert \/ MsgDelete
-           \/ MsgSetTime \/ MsgSetAttr \/ MsgReplace \/ MsgSwapTimes \/ TrackSlice \/ TrackName
+           \/ MsgSetTime \/ MsgSetAttr \/ MsgReplace \/ MsgSwapTimes \/ TrackSlice \/ TrackName \/ TrackDouble
            \/ SetTpb \/ SetType
-           \/ Observe("iterate") \/ Observe("length") \/ Observe("merged_track") \/ Observe("play") \/ Save
+           \/ Observe("iterate") \/ Observe("length") \/ Observe("merged_track") \/ Observe("play") \/ Observe("iter_nested") \/ Save
 Spec == Init /\ [][Next]_vars
 
 \* ---- the property ----
-IsObs(h) == h.op \in {"iterate", "length", "merged_track", "play"}
+\* "iter_nested": an iteration during which length is read after the first message
+IsObs(h) == h.op \in {"iterate", "length", "merged_track", "play", "iter_nested"}
 ObservationIsFunctionOfContents ==
   \A i \in DOMAIN hist : IsObs(hist[i]) => hist[i].seen = Obs(hist[i].tracks)
 
@@ -148,6 +157,7 @@ OpCode(op) == CASE op = "add_track" -> 1 [] op = "tracks_append" -> 2 [] op = "t
                 [] op = "save" -> 13 [] op = "play" -> 14
                 [] op = "msg_attr" -> 15 [] op = "msg_replace" -> 16 [] op = "msg_swap" -> 17
                 [] op = "track_slice" -> 18 [] op = "track_name" -> 19
+                [] op = "track_double" -> 20 [] op = "iter_nested" -> 21
 NObs == Cardinality({i \in DOMAIN hist : IsObs(hist[i]) \/ hist[i].op = "save"})
 Emit == (Len(hist) = MaxOps /\ NObs >= 1 /\ (IsObs(hist[MaxOps]) \/ hist[MaxOps].op = "save")) =>
   PrintT(ToString(<<"EMIT", Len(hist)>> \o
